@@ -179,13 +179,21 @@ def replay(cases, nproc=16):
 
 
 def stratified(cases, per_stratum, seed):
+    """Strata: command x model x (no config | config) x which set-but-falsy value the config holds x whether a
+    Rush-Larsen scheme is effectively requested (delta / stiff states only show there)."""
     import random
     rnd = random.Random(seed)
     strata = {}
     for c in cases:
-        strata.setdefault((c["cmd"], c["model"], c["config"]["present"]), []).append(c)
+        cfg = c["config"]
+        falsy = "-"
+        if cfg["present"]:
+            falsy = ("delta=0" if cfg["delta"] == "0" else "stiff=[]" if cfg["stiff"] == [] else "scheme=[]" if cfg["scheme"] == [] else "-")
+        rl = any("rush_larsen" in s for s in c["eff"].get("scheme", [])) if isinstance(c["eff"], dict) else False
+        strata.setdefault((c["cmd"], c["model"], cfg["present"], falsy, rl), []).append(c)
     out = []
-    for k in sorted(strata):
+    for k in sorted(strata, key=str):
         lst = strata[k]
-        out += rnd.sample(lst, min(per_stratum, len(lst)))
+        n = per_stratum if k[1] == "valid" else max(2, per_stratum // 6)
+        out += rnd.sample(lst, min(n, len(lst)))
     return out
